@@ -27,9 +27,11 @@ import (
 	"fmt"
 	"math/rand"
 	"os"
+	"reflect"
 	"runtime"
 	"sort"
 	"strings"
+	"time"
 
 	"github.com/hashicorp/go-hclog"
 
@@ -111,6 +113,7 @@ type MChk struct {
 	Rest   int `json:"rest"`
 	Sname  int `json:"sname"`
 	Stags  int `json:"stags"`
+	Aux    int `json:"aux"` // Type / Interval / Timeout / ExposedPort: fields HealthCheck.IsSame does not compare
 }
 
 type ChkWithID struct {
@@ -164,6 +167,12 @@ func buildChk(id int, m MChk) *structs.HealthCheck {
 		Type:           "ttl",
 		EnterpriseMeta: *structs.DefaultEnterpriseMetaInDefaultPartition(),
 	}
+	if m.Aux != 0 { // as agent.AddCheck fills them in from the check definition
+		hc.Type = "http"
+		hc.Interval = fmt.Sprintf("%ds", 10*m.Aux)
+		hc.Timeout = fmt.Sprintf("%ds", m.Aux)
+		hc.ExposedPort = 21500 + m.Aux
+	}
 	if m.Out != 0 {
 		hc.Output = fmt.Sprintf("out%d", m.Out)
 	}
@@ -176,6 +185,12 @@ func buildChk(id int, m MChk) *structs.HealthCheck {
 func encChk(hc *structs.HealthCheck) MChk {
 	m := MChk{Status: idx(statuses, hc.Status), Sname: idx(svcNames, hc.ServiceName), Stags: tagCode(hc.ServiceTags)}
 	fmt.Sscanf(hc.Name, "chk%d", &m.Rest)
+	if hc.Type != "ttl" || hc.Interval != "" || hc.Timeout != "" || hc.ExposedPort != 0 {
+		m.Aux = hc.ExposedPort - 21500
+		if hc.Type != "http" || hc.Interval != fmt.Sprintf("%ds", 10*m.Aux) || hc.Timeout != fmt.Sprintf("%ds", m.Aux) || m.Aux <= 0 {
+			m.Aux = 99 // an inconsistent mixture: never generated, shows up as a mismatch
+		}
+	}
 	if hc.Output != "" {
 		fmt.Sscanf(hc.Output, "out%d", &m.Out)
 	}
@@ -211,6 +226,7 @@ type History struct {
 	Cfg    int    `json:"cfg"`
 	StrErr bool   `json:"strerr"` // errors cross a (simulated) net/rpc boundary: only their text survives
 	WF     bool   `json:"wf"`     // agent-style history (a service is removed together with its checks, ...)
+	Defer  bool   `json:"defer"`  // CheckUpdateInterval > 0 (the agent's default is 5m): output-only updates are deferred
 	Steps  []Step `json:"steps"`
 }
 
@@ -499,6 +515,9 @@ func (d *delegate) applyRegister(req *structs.RegisterRequest) error {
 		if c.Node == "" {
 			c.Node = r2.Node
 		}
+		if c.Type == "" { // Catalog.Register: "Populate check type ..."
+			c.Type = c.CheckType().Type()
+		}
 	}
 	d.raft++
 	return d.store.EnsureRegistration(d.raft, &r2)
@@ -525,6 +544,10 @@ func newWorld(h History, faults []int) *world {
 		NodeID:          types.NodeID(nodeID),
 		NodeName:        nodeName,
 		TaggedAddresses: map[string]string{"lan": nodeAddr},
+	}
+	if h.Defer {
+		// long enough never to fire by itself; the "timer" step fires a pending timer on purpose
+		cfg.CheckUpdateInterval = 24 * time.Hour
 	}
 	w := &world{}
 	w.st = local.NewState(cfg, hclog.NewNullLogger(), ts)
@@ -639,10 +662,10 @@ func rows(res int, log []event, s snapshot, c catalog) [][]int {
 	}
 	for _, id := range sortedKeys(s.chks) {
 		e := s.chks[id]
-		r := []int{4, id, tokCode(e.Token), b2i(e.InSync), b2i(e.Deleted), b2i(e.IsLocal), b2i(e.Check != nil)}
+		r := []int{4, id, tokCode(e.Token), b2i(e.InSync), b2i(e.Deleted), b2i(e.IsLocal), b2i(e.Defer), b2i(e.Check != nil)}
 		if e.Check != nil {
 			m := encChk(e.Check)
-			r = append(r, m.Sid, m.Status, m.Out, m.Rest, m.Sname, m.Stags)
+			r = append(r, m.Sid, m.Status, m.Out, m.Rest, m.Sname, m.Stags, m.Aux)
 		}
 		out = append(out, r)
 	}
@@ -660,7 +683,7 @@ func rows(res int, log []event, s snapshot, c catalog) [][]int {
 	}
 	for _, id := range sortedKeys(c.chks) {
 		m := encChk(c.chks[id])
-		out = append(out, []int{7, id, m.Sid, m.Status, m.Out, m.Rest, m.Sname, m.Stags})
+		out = append(out, []int{7, id, m.Sid, m.Status, m.Out, m.Rest, m.Sname, m.Stags, m.Aux})
 	}
 	return out
 }
@@ -710,9 +733,21 @@ type result struct {
 	inj    bool   // some fault was injected
 }
 
+func sigKey(sig map[string]interface{}) string {
+	m := map[string]interface{}{}
+	for k, v := range sig {
+		if k != "msg" && k != "shrunk" {
+			m[k] = v
+		}
+	}
+	b, _ := json.Marshal(m)
+	return string(b)
+}
+
+// object records an objection; one per distinct full signature per run
 func (r *result) object(what string, sig map[string]interface{}) {
 	for _, f := range r.fails {
-		if f.Sig["kind"] == sig["kind"] {
+		if sigKey(f.Sig) == sigKey(sig) {
 			return
 		}
 	}
@@ -722,9 +757,9 @@ func (r *result) object(what string, sig map[string]interface{}) {
 	r.fails = append(r.fails, Fail{what, sig})
 }
 
-func (r *result) has(kind string) *Fail {
+func (r *result) has(key string) *Fail {
 	for i := range r.fails {
-		if r.fails[i].Sig["kind"] == kind {
+		if sigKey(r.fails[i].Sig) == key {
 			return &r.fails[i]
 		}
 	}
@@ -733,7 +768,7 @@ func (r *result) has(kind string) *Fail {
 
 func run(h History, faults []int) result {
 	w := newWorld(h, faults)
-	res := result{hist: History{User: h.User, Agent: h.Agent, Cfg: h.Cfg, StrErr: h.StrErr, WF: h.WF}}
+	res := result{hist: History{User: h.User, Agent: h.Agent, Cfg: h.Cfg, StrErr: h.StrErr, WF: h.WF, Defer: h.Defer}}
 	orc := newOracle(h.WF)
 	for si, st0 := range h.Steps {
 		st := st0
@@ -796,6 +831,8 @@ func run(h History, faults []int) result {
 				w.st.UpdateCheck(chkID(st.ID), statuses[st.Status], out)
 				return nil
 			})
+		case "timer": // the deferred-output timer of the check fires (no-op when none is pending)
+			rc, pmsg = guard(func() error { w.st.VerifFireDefer(chkID(st.ID)); return nil })
 		case "uss":
 			rc, pmsg = guard(func() error { return w.st.VerifUpdateSyncState() })
 		case "syncchanges":
@@ -851,8 +888,10 @@ func run(h History, faults []int) result {
 		} else if w.d.bad != "" {
 			res.object("bad-request:"+w.d.bad, map[string]interface{}{"kind": "bad-request", "what": w.d.bad})
 			w.d.bad = ""
-		} else if v, sig := orc.step(si, st, rc, log, pre, post, preCat, postCat); v != "" {
-			res.object(v, sig)
+		} else {
+			for _, ob := range orc.step(si, st, rc, log, pre, post, preCat, postCat) {
+				res.object(ob.what, ob.sig)
+			}
 		}
 	}
 	res.calls = w.d.pos
@@ -885,13 +924,51 @@ func overPlaceholder(st Step, pre snapshot) bool {
 
 type oracle struct {
 	wf bool // agent-style history: claims about checks apply
+	// trace-level bookkeeping: entries whose "in sync" flag has an excuse since the last good diff
+	refusedS, refusedC map[int]bool // registration refused by ACLs
+	driftS, driftC     map[int]bool // the catalog row was changed behind the agent's back
 }
 
-func newOracle(wf bool) *oracle { return &oracle{wf: wf} }
+func newOracle(wf bool) *oracle {
+	return &oracle{wf: wf, refusedS: map[int]bool{}, refusedC: map[int]bool{}, driftS: map[int]bool{}, driftC: map[int]bool{}}
+}
+
+// objection of the oracle: a verdict string and its structured signature
+type objection struct {
+	what string
+	sig  map[string]interface{}
+}
+
+// diffFields lists the top-level fields in which two structs of the same type differ
+// (reflect.DeepEqual per field), so that "holds" does not depend on the implementation's IsSame.
+func diffFields(a, b interface{}) []string {
+	va, vb := reflect.ValueOf(a), reflect.ValueOf(b)
+	var out []string
+	for i := 0; i < va.NumField(); i++ {
+		if !reflect.DeepEqual(va.Field(i).Interface(), vb.Field(i).Interface()) {
+			out = append(out, va.Type().Field(i).Name)
+		}
+	}
+	sort.Strings(out)
+	return out
+}
+
+// svcDiff: fields in which the catalog's row differs from the definition; nil when the row is absent.
+// Nothing of a service row is server-owned here except the Raft indexes.
+func svcDiff(c catalog, id int, def *structs.NodeService) (absent bool, d []string) {
+	r := c.svcs[id]
+	if r == nil || def == nil {
+		return true, nil
+	}
+	a, b := *def, *r
+	a.RaftIndex, b.RaftIndex = structs.RaftIndex{}, structs.RaftIndex{}
+	a.LocallyRegisteredAsSidecar, b.LocallyRegisteredAsSidecar = false, false
+	return false, diffFields(a, b)
+}
 
 func holdsSvc(c catalog, id int, def *structs.NodeService) bool {
-	r := c.svcs[id]
-	return r != nil && def != nil && def.IsSame(r)
+	absent, d := svcDiff(c, id, def)
+	return !absent && len(d) == 0
 }
 
 // server-owned parts of a service: tags under EnableTagOverride, reserved tagged addresses
@@ -900,7 +977,13 @@ func holdsSvcModOwned(c catalog, id int, def *structs.NodeService) bool {
 	if r == nil || def == nil {
 		return false
 	}
-	a, b := *def, *r
+	return len(svcOwnDiff(def, r)) == 0
+}
+
+func svcOwnDiff(x, y *structs.NodeService) []string {
+	a, b := *x, *y
+	a.RaftIndex, b.RaftIndex = structs.RaftIndex{}, structs.RaftIndex{}
+	a.LocallyRegisteredAsSidecar, b.LocallyRegisteredAsSidecar = false, false
 	if a.EnableTagOverride {
 		a.Tags, b.Tags = nil, nil
 	}
@@ -914,18 +997,51 @@ func holdsSvcModOwned(c catalog, id int, def *structs.NodeService) bool {
 		return o
 	}
 	a.TaggedAddresses, b.TaggedAddresses = strip(a.TaggedAddresses), strip(b.TaggedAddresses)
-	return a.IsSame(&b)
+	return diffFields(a, b)
 }
 
-// server-owned parts of a check: ServiceName / ServiceTags are copied from the catalog's service
-func holdsChk(c catalog, id int, def *structs.HealthCheck) bool {
+// chkDiff: server-owned parts of a check row are ServiceName / ServiceTags (copied from the
+// catalog's service row), the default of an empty Status, and the Raft indexes
+func chkDiff(c catalog, id int, def *structs.HealthCheck) (absent bool, d []string) {
 	r := c.chks[id]
 	if r == nil || def == nil {
-		return false
+		return true, nil
 	}
-	a := *def
-	a.ServiceName, a.ServiceTags = r.ServiceName, r.ServiceTags
-	return a.IsSame(r)
+	a, b := *def, *r
+	a.RaftIndex, b.RaftIndex = structs.RaftIndex{}, structs.RaftIndex{}
+	a.ServiceName, a.ServiceTags = b.ServiceName, b.ServiceTags
+	if a.Status == "" {
+		a.Status = "critical"
+	}
+	return false, diffFields(a, b)
+}
+
+func holdsChk(c catalog, id int, def *structs.HealthCheck) bool {
+	absent, d := chkDiff(c, id, def)
+	return !absent && len(d) == 0
+}
+
+// cause classifies a difference: the two shapes for which findings are recorded
+func cause(absent bool, d []string, deferPending bool) string {
+	if absent || len(d) == 0 {
+		return ""
+	}
+	if len(d) == 1 && d[0] == "Output" && deferPending {
+		return "deferred-output" // UpdateCheck deferred the output sync (CheckUpdateInterval > 0) and the timer is pending
+	}
+	for _, f := range d {
+		if f != "Type" && f != "Interval" && f != "Timeout" && f != "ExposedPort" {
+			return ""
+		}
+	}
+	return "isame-ignored-fields" // HealthCheck.IsSame does not compare these
+}
+
+func diffSig(absent bool, d []string) interface{} {
+	if absent {
+		return "absent"
+	}
+	return strings.Join(d, ",")
 }
 
 func refused(log []event, svc bool, id int) bool {
@@ -961,52 +1077,148 @@ func covered(log []event, svc bool, id int) bool {
 	return false
 }
 
-func (o *oracle) step(si int, st Step, rc int, log []event, pre, post snapshot, preCat, postCat catalog) (string, map[string]interface{}) {
-	sig := func(kind string, kv ...interface{}) map[string]interface{} {
+func (o *oracle) step(si int, st Step, rc int, log []event, pre, post snapshot, preCat, postCat catalog) []objection {
+	var objs []objection
+	add := func(what, kind string, kv ...interface{}) {
 		m := map[string]interface{}{"kind": kind, "op": st.Op}
 		for i := 0; i+1 < len(kv); i += 2 {
 			m[kv[i].(string)] = kv[i+1]
 		}
-		return m
+		objs = append(objs, objection{what, m})
 	}
+	defer func() {}()
 	switch st.Op {
 	case "dreg", "ddelsvc", "ddelchk", "ddelnode":
-		return "", nil
+		// remember which rows changed behind the agent's back (an excuse for the trace-level clause)
+		for id := range svcIDs {
+			if !reflect.DeepEqual(preCat.svcs[id], postCat.svcs[id]) {
+				o.driftS[id] = true
+			}
+		}
+		for id := range chkIDs {
+			if !reflect.DeepEqual(preCat.chks[id], postCat.chks[id]) {
+				o.driftC[id] = true
+			}
+		}
 	case "addsvc", "addchk":
-		// a local change never turns an entry that was not in sync into one that is
-		for id, e := range post.svcs {
+		// (5) a local change never turns an entry that was not in sync into one that is, and an
+		// entry whose definition changed does not stay in sync unless the catalog holds the new one
+		for _, id := range sortedKeys(post.svcs) {
+			e := post.svcs[id]
 			p, had := pre.svcs[id]
-			if e.InSync && !e.Deleted && !(had && p.InSync && !p.Deleted) && !holdsSvc(postCat, id, e.Service) {
-				return fmt.Sprintf("local-op-marks-insync:svc:%d", id), sig("local-op-marks-insync", "entry", "svc",
+			if !e.InSync || e.Deleted || e.Service == nil {
+				continue
+			}
+			absent, d := svcDiff(postCat, id, e.Service)
+			if !absent && len(d) == 0 {
+				continue
+			}
+			wasIn := had && p.InSync && !p.Deleted
+			if !wasIn {
+				add(fmt.Sprintf("local-op-marks-insync:svc:%d", id), "local-op-marks-insync", "entry", "svc",
 					"over_deleted", had && p.Deleted, "over_unsynced", had && !p.InSync,
-					"same_definition", had && p.Service != nil && e.Service != nil && e.Service.IsSame(p.Service))
+					"same_definition", had && p.Service != nil && len(svcOwnDiff(e.Service, p.Service)) == 0 && reflect.DeepEqual(e.Service.Tags, p.Service.Tags))
+			} else if p.Service != nil && !reflect.DeepEqual(*p.Service, *e.Service) {
+				add(fmt.Sprintf("local-change-stays-insync:svc:%d", id), "local-change-stays-insync", "entry", "svc", "differs", diffSig(absent, d))
 			}
 		}
-		for id, e := range post.chks {
+		for _, id := range sortedKeys(post.chks) {
+			e := post.chks[id]
 			p, had := pre.chks[id]
-			if e.InSync && !e.Deleted && !(had && p.InSync && !p.Deleted) && !holdsChk(postCat, id, e.Check) {
-				return fmt.Sprintf("local-op-marks-insync:chk:%d", id), sig("local-op-marks-insync", "entry", "chk",
+			if !e.InSync || e.Deleted || e.Check == nil {
+				continue
+			}
+			absent, d := chkDiff(postCat, id, e.Check)
+			if !absent && len(d) == 0 {
+				continue
+			}
+			wasIn := had && p.InSync && !p.Deleted
+			if !wasIn {
+				add(fmt.Sprintf("local-op-marks-insync:chk:%d", id), "local-op-marks-insync", "entry", "chk",
 					"over_deleted", had && p.Deleted, "over_unsynced", had && !p.InSync,
-					"same_definition", had && p.Check != nil && e.Check != nil && e.Check.IsSame(p.Check))
+					"same_definition", had && p.Check != nil && reflect.DeepEqual(*e.Check, *p.Check))
+			} else if p.Check != nil && !reflect.DeepEqual(*p.Check, *e.Check) {
+				changed := diffFields(*p.Check, *e.Check)
+				add(fmt.Sprintf("local-change-stays-insync:chk:%d", id), "local-change-stays-insync", "entry", "chk",
+					"changed", strings.Join(changed, ","), "cause", cause(false, changed, e.Defer))
 			}
 		}
-		return "", nil
-	case "rmsvc", "rmsvcraw", "rmchk", "updchk":
-		for id, e := range post.svcs {
-			if p, had := pre.svcs[id]; e.InSync && !(had && p.InSync) {
-				return fmt.Sprintf("local-op-marks-insync:svc:%d", id), sig("local-op-marks-insync", "entry", "svc")
+	case "rmsvc", "rmsvcraw", "rmchk", "updchk", "timer":
+		for _, id := range sortedKeys(post.svcs) {
+			if p, had := pre.svcs[id]; post.svcs[id].InSync && !(had && p.InSync) {
+				add(fmt.Sprintf("local-op-marks-insync:svc:%d", id), "local-op-marks-insync", "entry", "svc")
 			}
 		}
-		for id, e := range post.chks {
-			if p, had := pre.chks[id]; e.InSync && !(had && p.InSync) {
-				return fmt.Sprintf("local-op-marks-insync:chk:%d", id), sig("local-op-marks-insync", "entry", "chk")
+		for _, id := range sortedKeys(post.chks) {
+			e := post.chks[id]
+			p, had := pre.chks[id]
+			if e.InSync && !(had && p.InSync) {
+				add(fmt.Sprintf("local-op-marks-insync:chk:%d", id), "local-op-marks-insync", "entry", "chk")
+			} else if e.InSync && !e.Deleted && e.Check != nil && had && p.Check != nil && !reflect.DeepEqual(*p.Check, *e.Check) {
+				absent, d := chkDiff(postCat, id, e.Check)
+				if absent || len(d) > 0 {
+					changed := diffFields(*p.Check, *e.Check)
+					add(fmt.Sprintf("local-change-stays-insync:chk:%d", id), "local-change-stays-insync", "entry", "chk",
+						"changed", strings.Join(changed, ","), "cause", cause(false, changed, e.Defer))
+				}
 			}
 		}
-		return "", nil
+	default:
+		objs = append(objs, o.syncStep(st, rc, log, pre, post, preCat, postCat)...)
+	}
+
+	// (7) trace level, after EVERY step: a live entry marked in sync is held by the catalog, or its
+	// registration was refused since the last good diff, or its row was changed behind the agent's
+	// back since then
+	for _, e := range log {
+		if e.outcome == oDenied || e.outcome == oNotFound {
+			for _, x := range e.coversS {
+				o.refusedS[x] = true
+			}
+			for _, x := range e.coversC {
+				o.refusedC[x] = true
+			}
+		}
+	}
+	for _, id := range sortedKeys(post.svcs) {
+		e := post.svcs[id]
+		if !e.InSync || e.Deleted || e.Service == nil || o.refusedS[id] || o.driftS[id] {
+			continue
+		}
+		if absent, d := svcDiff(postCat, id, e.Service); absent || len(d) > 0 {
+			add(fmt.Sprintf("trace-false-insync:svc:%d", id), "trace-false-insync", "entry", "svc", "differs", diffSig(absent, d))
+		}
+	}
+	if o.wf {
+		for _, id := range sortedKeys(post.chks) {
+			e := post.chks[id]
+			if !e.InSync || e.Deleted || e.Check == nil || o.refusedC[id] || o.driftC[id] {
+				continue
+			}
+			if absent, d := chkDiff(postCat, id, e.Check); absent || len(d) > 0 {
+				add(fmt.Sprintf("trace-false-insync:chk:%d", id), "trace-false-insync", "entry", "chk",
+					"differs", diffSig(absent, d), "cause", cause(absent, d, e.Defer))
+			}
+		}
+	}
+	return objs
+}
+
+func (o *oracle) syncStep(st Step, rc int, log []event, pre, post snapshot, preCat, postCat catalog) []objection {
+	var objs []objection
+	add := func(what, kind string, kv ...interface{}) {
+		m := map[string]interface{}{"kind": kind, "op": st.Op}
+		for i := 0; i+1 < len(kv); i += 2 {
+			m[kv[i].(string)] = kv[i+1]
+		}
+		objs = append(objs, objection{what, m})
 	}
 	// ---- sync steps: uss, syncchanges, syncfull
 	readsOK := len(log) >= 2 && log[0].kind == kListSvcs && log[0].outcome == oOK && log[1].kind == kListChks && log[1].outcome == oOK
 	recomputed := (st.Op == "syncfull" || st.Op == "uss") && readsOK
+	if recomputed { // every flag was recomputed from the catalog: earlier excuses are void
+		o.refusedS, o.refusedC, o.driftS, o.driftC = map[int]bool{}, map[int]bool{}, map[int]bool{}, map[int]bool{}
+	}
 	injected := false
 	nodeFailed := false
 	for _, e := range log {
@@ -1018,19 +1230,46 @@ func (o *oracle) step(si int, st Step, rc int, log []event, pre, post snapshot, 
 		}
 	}
 
+	// (0) a sync never rewrites or drops a local registration (up to the server-owned fields it adopts)
+	for _, id := range sortedKeys(pre.svcs) {
+		p := pre.svcs[id]
+		if p.Deleted || p.Service == nil {
+			continue
+		}
+		e, ok := post.svcs[id]
+		if !ok || e.Deleted || e.Service == nil {
+			add(fmt.Sprintf("sync-lost-local-entry:svc:%d", id), "sync-lost-local-entry", "entry", "svc")
+		} else if d := svcOwnDiff(p.Service, e.Service); len(d) > 0 {
+			add(fmt.Sprintf("sync-changed-local-def:svc:%d", id), "sync-changed-local-def", "entry", "svc", "differs", strings.Join(d, ","))
+		}
+	}
+	for _, id := range sortedKeys(pre.chks) {
+		p := pre.chks[id]
+		if p.Deleted || p.Check == nil {
+			continue
+		}
+		e, ok := post.chks[id]
+		if !ok || e.Deleted || e.Check == nil {
+			add(fmt.Sprintf("sync-lost-local-entry:chk:%d", id), "sync-lost-local-entry", "entry", "chk")
+		} else if !reflect.DeepEqual(*p.Check, *e.Check) {
+			add(fmt.Sprintf("sync-changed-local-def:chk:%d", id), "sync-changed-local-def", "entry", "chk", "differs", strings.Join(diffFields(*p.Check, *e.Check), ","))
+		}
+	}
+
 	// (1) no false in-sync mark
 	for _, id := range sortedKeys(post.svcs) {
 		e := post.svcs[id]
 		if !e.InSync || e.Deleted || e.Service == nil {
 			continue
 		}
-		if holdsSvc(postCat, id, e.Service) || refused(log, true, id) {
+		absent, d := svcDiff(postCat, id, e.Service)
+		if (!absent && len(d) == 0) || refused(log, true, id) {
 			continue
 		}
-		if p, had := pre.svcs[id]; !recomputed && had && p.InSync && !p.Deleted && p.Service != nil && p.Service.IsSame(e.Service) {
+		if p, had := pre.svcs[id]; !recomputed && had && p.InSync && !p.Deleted && p.Service != nil && reflect.DeepEqual(*p.Service, *e.Service) {
 			continue // not marked by this step
 		}
-		return fmt.Sprintf("false-insync:svc:%d", id), sig("false-insync", "entry", "svc")
+		add(fmt.Sprintf("false-insync:svc:%d", id), "false-insync", "entry", "svc", "differs", diffSig(absent, d))
 	}
 	if o.wf {
 		for _, id := range sortedKeys(post.chks) {
@@ -1038,13 +1277,14 @@ func (o *oracle) step(si int, st Step, rc int, log []event, pre, post snapshot, 
 			if !e.InSync || e.Deleted || e.Check == nil {
 				continue
 			}
-			if holdsChk(postCat, id, e.Check) || refused(log, false, id) {
+			absent, d := chkDiff(postCat, id, e.Check)
+			if (!absent && len(d) == 0) || refused(log, false, id) {
 				continue
 			}
-			if p, had := pre.chks[id]; !recomputed && had && p.InSync && !p.Deleted && p.Check != nil && p.Check.IsSame(e.Check) {
+			if p, had := pre.chks[id]; !recomputed && had && p.InSync && !p.Deleted && p.Check != nil && reflect.DeepEqual(*p.Check, *e.Check) {
 				continue
 			}
-			return fmt.Sprintf("false-insync:chk:%d", id), sig("false-insync", "entry", "chk")
+			add(fmt.Sprintf("false-insync:chk:%d", id), "false-insync", "entry", "chk", "differs", diffSig(absent, d), "cause", cause(absent, d, e.Defer))
 		}
 	}
 
@@ -1057,25 +1297,41 @@ func (o *oracle) step(si int, st Step, rc int, log []event, pre, post snapshot, 
 			continue
 		}
 		if postCat.svcs[id] != nil {
-			return fmt.Sprintf("delete-forgotten:svc:%d", id), sig("delete-forgotten", "entry", "svc")
+			add(fmt.Sprintf("delete-forgotten:svc:%d", id), "delete-forgotten", "entry", "svc")
 		}
 	}
 	for _, id := range sortedKeys(pre.chks) {
-		if !pre.chks[id].Deleted {
+		p := pre.chks[id]
+		if !p.Deleted {
 			continue
 		}
 		if e, ok := post.chks[id]; ok && e.Deleted {
 			continue
 		}
 		if r := postCat.chks[id]; r != nil {
-			p := pre.chks[id]
-			bound := p.Check != nil && p.Check.ServiceID == r.ServiceID
-			return fmt.Sprintf("delete-forgotten:chk:%d", id), sig("delete-forgotten", "entry", "chk", "catalog_binding_same", bound)
+			// who dropped the mark: deleteService's prune (a successful / "unknown" service
+			// deregistration of the service the check was bound to LOCALLY, and no call for the check itself)?
+			prunedBySvc := false
+			if p.Check != nil && p.Check.ServiceID != "" {
+				sid := rev(svcIDs, p.Check.ServiceID)
+				for _, ev := range log {
+					if ev.kind == kDelSvc && ev.id == sid && (ev.outcome == oOK || ev.outcome == oUnknown) {
+						prunedBySvc = true
+					}
+				}
+			}
+			for _, ev := range log {
+				if ev.kind == kDelChk && ev.id == id {
+					prunedBySvc = false
+				}
+			}
+			add(fmt.Sprintf("delete-forgotten:chk:%d", id), "delete-forgotten", "entry", "chk", "placeholder", p.Check == nil,
+				"catalog_binding_same", p.Check != nil && p.Check.ServiceID == r.ServiceID, "pruned_by_service_dereg", prunedBySvc)
 		}
 	}
 
-	// (3) refused entries (any live entry marked in sync that the catalog does not hold) are
-	// pushed again by a full sync whose reads succeed
+	// (3) entries the catalog does not hold are pushed again by a full sync whose reads succeed,
+	// and every visited Deleted entry is deregistered again (or dropped) by any SyncChanges
 	if st.Op == "syncfull" && readsOK && !nodeFailed && o.wf {
 		for _, id := range sortedKeys(pre.svcs) {
 			p := pre.svcs[id]
@@ -1083,67 +1339,91 @@ func (o *oracle) step(si int, st Step, rc int, log []event, pre, post snapshot, 
 				continue
 			}
 			if !covered(log, true, id) {
-				return fmt.Sprintf("not-retried:svc:%d", id), sig("not-retried", "entry", "svc")
+				add(fmt.Sprintf("not-retried:svc:%d", id), "not-retried", "entry", "svc")
 			}
 		}
 		for _, id := range sortedKeys(pre.chks) {
 			p := pre.chks[id]
-			if p.Deleted || p.Check == nil || holdsChk(preCat, id, p.Check) {
+			if p.Deleted || p.Check == nil {
+				continue
+			}
+			absent, d := chkDiff(preCat, id, p.Check)
+			if !absent && len(d) == 0 {
 				continue
 			}
 			if !covered(log, false, id) {
-				return fmt.Sprintf("not-retried:chk:%d", id), sig("not-retried", "entry", "chk")
+				add(fmt.Sprintf("not-retried:chk:%d", id), "not-retried", "entry", "chk", "differs", diffSig(absent, d), "cause", cause(absent, d, p.Defer))
+			}
+		}
+	}
+	if (st.Op == "syncfull" && readsOK || st.Op == "syncchanges") && !nodeFailed {
+		delCalled := func(kind, id int) bool {
+			for _, ev := range log {
+				if ev.kind == kind && ev.id == id {
+					return true
+				}
+			}
+			return false
+		}
+		for _, id := range sortedKeys(pre.svcs) {
+			if e, ok := post.svcs[id]; pre.svcs[id].Deleted && ok && e.Deleted && !delCalled(kDelSvc, id) {
+				add(fmt.Sprintf("delete-not-retried:svc:%d", id), "delete-not-retried", "entry", "svc")
+			}
+		}
+		for _, id := range sortedKeys(pre.chks) {
+			if e, ok := post.chks[id]; pre.chks[id].Deleted && ok && e.Deleted && !delCalled(kDelChk, id) {
+				add(fmt.Sprintf("delete-not-retried:chk:%d", id), "delete-not-retried", "entry", "chk")
 			}
 		}
 	}
 
-	// (4) convergence: a full sync without any fault, on an agent-style history
+	// (4) convergence: a full sync without any fault, on an agent-style history. Every problem is
+	// its own objection (nothing is overwritten).
 	if st.Op == "syncfull" && !injected && o.wf {
 		if rc != 0 {
-			return "sync-error-without-fault", sig("sync-error-without-fault")
+			add("sync-error-without-fault", "sync-error-without-fault")
 		}
-		detail := ""
+		nc := func(problem, what string, kv ...interface{}) {
+			add("not-converged:"+what, "not-converged", append([]interface{}{"problem", problem}, kv...)...)
+		}
 		for _, id := range sortedKeys(post.svcs) {
 			e := post.svcs[id]
 			if e.Deleted {
-				detail = fmt.Sprintf("svc %d still marked deleted", id)
-			} else if !holdsSvc(postCat, id, e.Service) {
-				detail = fmt.Sprintf("svc %d not held", id)
+				nc("svc-still-deleted", fmt.Sprintf("svc %d still marked deleted", id))
+			} else if absent, d := svcDiff(postCat, id, e.Service); absent || len(d) > 0 {
+				nc("svc-not-held", fmt.Sprintf("svc %d not held", id), "differs", diffSig(absent, d))
+			} else if !e.InSync {
+				nc("svc-not-insync", fmt.Sprintf("svc %d held but not marked in sync", id))
 			}
 		}
 		for _, id := range sortedKeys(postCat.svcs) {
 			if _, ok := post.svcs[id]; !ok && id != consulID {
-				detail = fmt.Sprintf("foreign svc %d left", id)
+				nc("foreign-svc-left", fmt.Sprintf("foreign svc %d left", id))
 			}
 		}
 		for _, id := range sortedKeys(post.chks) {
 			e := post.chks[id]
 			if e.Deleted {
-				detail = fmt.Sprintf("chk %d still marked deleted", id)
-			} else if !holdsChk(postCat, id, e.Check) {
-				detail = fmt.Sprintf("chk %d not held", id)
+				nc("chk-still-deleted", fmt.Sprintf("chk %d still marked deleted", id))
+			} else if absent, d := chkDiff(postCat, id, e.Check); absent || len(d) > 0 {
+				nc("chk-not-held", fmt.Sprintf("chk %d not held", id), "differs", diffSig(absent, d), "cause", cause(absent, d, e.Defer))
 			}
 		}
-		stale, rebound := false, true
 		for _, id := range sortedKeys(postCat.chks) {
 			if _, ok := post.chks[id]; !ok && id != consulID {
-				detail = fmt.Sprintf("foreign chk %d left", id)
-				stale = true
 				// was it a locally removed check that the catalog held under another service?
 				p, had := pre.chks[id]
 				r := preCat.chks[id]
-				rebound = rebound && had && p.Deleted && p.Check != nil && r != nil && p.Check.ServiceID != r.ServiceID
+				nc("stale-chk-left", fmt.Sprintf("foreign chk %d left", id),
+					"was_local_deleted", had && p.Deleted && p.Check != nil,
+					"bound_elsewhere", had && p.Check != nil && r != nil && p.Check.ServiceID != r.ServiceID)
 			}
 		}
 		if postCat.node == nil || postCat.node.Meta["k"] != "1" {
-			detail = "node info not pushed"
-		}
-		if detail != "" {
-			return "not-converged:" + detail, sig("not-converged", "stale_check_only", stale && strings.HasPrefix(detail, "foreign chk"),
-				"stale_checks_bound_elsewhere", stale && rebound)
+			nc("node-info", "node info not pushed")
 		}
 	}
-	return "", nil
+	return objs
 }
 
 // ------------------------------------------------------------------ generators
@@ -1166,6 +1446,9 @@ func (g *gen) svcDef() MSvc {
 
 func (g *gen) chkDef(sid int, svc *MSvc) MChk {
 	m := MChk{Sid: sid, Status: 1 + g.r.Intn(3), Out: g.r.Intn(3), Rest: g.r.Intn(2)}
+	if g.r.Intn(3) == 0 {
+		m.Aux = 1 + g.r.Intn(2)
+	}
 	if svc != nil { // the agent copies the service name and tags into the check
 		m.Sname, m.Stags = svc.Name, svc.Tags
 	}
@@ -1180,7 +1463,8 @@ func (g *gen) pick(m map[int]bool) int {
 // structured, agent-style histories. The generator keeps its own shadow of what is live (it
 // does not look at the implementation), so most operations are valid.
 func (g *gen) history(nsteps int) History {
-	h := History{User: g.r.Intn(2), Agent: 2 * g.r.Intn(2), Cfg: 3 * g.r.Intn(2), StrErr: g.r.Intn(2) == 0, WF: true}
+	h := History{User: g.r.Intn(2), Agent: 2 * g.r.Intn(2), Cfg: 3 * g.r.Intn(2), StrErr: g.r.Intn(2) == 0, WF: true,
+		Defer: g.r.Intn(3) == 0}
 	liveS := map[int]MSvc{}
 	liveC := map[int]MChk{}
 	catS := map[int]MSvc{} // rough shadow of the catalog, only to aim the drift
@@ -1272,6 +1556,9 @@ func (g *gen) history(nsteps int) History {
 			cd := g.chkDef(sid, sd)
 			if old, ok := liveC[cid]; ok && g.r.Intn(3) == 0 {
 				cd = old
+				if g.r.Intn(2) == 0 { // re-registration that changes only Type/Interval/Timeout/ExposedPort
+					cd.Aux = (old.Aux + 1) % 3
+				}
 			}
 			liveC[cid] = cd
 			add(Step{Op: "addchk", ID: cid, Chk: &cd, Tok: svcTok(), Loc: g.r.Intn(3) == 0})
@@ -1296,9 +1583,16 @@ func (g *gen) history(nsteps int) History {
 			}
 			cid := g.pick(m)
 			c := liveC[cid]
-			c.Status, c.Out = 1+g.r.Intn(3), g.r.Intn(3)
+			if g.r.Intn(2) == 0 { // output only (deferred when CheckUpdateInterval > 0)
+				c.Out = (c.Out + 1 + g.r.Intn(2)) % 3
+			} else {
+				c.Status, c.Out = 1+g.r.Intn(3), g.r.Intn(3)
+			}
 			liveC[cid] = c
 			add(Step{Op: "updchk", ID: cid, Status: c.Status, Out: c.Out})
+			if h.Defer && g.r.Intn(3) == 0 {
+				add(Step{Op: "timer", ID: cid})
+			}
 		case x < 65:
 			add(Step{Op: "syncchanges"})
 		case x < 80:
@@ -1309,8 +1603,10 @@ func (g *gen) history(nsteps int) History {
 			for k, v := range liveC {
 				catC[k] = v.Sid
 			}
-		case x < 83:
+		case x < 82:
 			add(Step{Op: "uss"})
+		case x < 83:
+			add(Step{Op: "timer", ID: 1 + g.r.Intn(6)})
 		case x < 90: // drift: alter / add a service behind the agent's back
 			id := 1 + g.r.Intn(4)
 			d := g.svcDef()
@@ -1351,7 +1647,14 @@ func (g *gen) history(nsteps int) History {
 				d := catS[sid]
 				sd = &d
 			}
-			add(Step{Op: "dreg", Ni: 1, Skip: true, Chks: []ChkWithID{{ID: cid, Def: g.chkDef(sid, sd)}}})
+			cd := g.chkDef(sid, sd)
+			if old, ok := liveC[cid]; ok && g.r.Intn(2) == 0 {
+				if _, there := catS[old.Sid]; there || old.Sid == 0 { // the same check, only Type/Interval/... altered
+					cd, sid = old, old.Sid
+					cd.Aux = (old.Aux + 1) % 3
+				}
+			}
+			add(Step{Op: "dreg", Ni: 1, Skip: true, Chks: []ChkWithID{{ID: cid, Def: cd}}})
 			catC[cid] = sid
 		case x < 96:
 			id := 1 + g.r.Intn(4)
@@ -1376,7 +1679,8 @@ func (g *gen) history(nsteps int) History {
 // not issue (a service removed without its checks, checks for absent or deleted services,
 // removal of unknown ids, re-adding over deleted entries and placeholders, ...)
 func (g *gen) malformed(nsteps int) History {
-	h := History{User: g.r.Intn(2), Agent: 2 * g.r.Intn(2), Cfg: 3 * g.r.Intn(2), StrErr: g.r.Intn(2) == 0, WF: false}
+	h := History{User: g.r.Intn(2), Agent: 2 * g.r.Intn(2), Cfg: 3 * g.r.Intn(2), StrErr: g.r.Intn(2) == 0, WF: false,
+		Defer: g.r.Intn(2) == 0}
 	for len(h.Steps) < nsteps {
 		id, cid := 1+g.r.Intn(3), 1+g.r.Intn(4)
 		switch x := g.r.Intn(100); {
@@ -1408,8 +1712,10 @@ func (g *gen) malformed(nsteps int) History {
 			h.Steps = append(h.Steps, Step{Op: "addchk", ID: cid, Chk: &cd, Tok: []int{0, 4, 5}[g.r.Intn(3)], Loc: g.r.Intn(2) == 0})
 		case x < 52:
 			h.Steps = append(h.Steps, Step{Op: "rmchk", ID: cid})
-		case x < 58:
+		case x < 56:
 			h.Steps = append(h.Steps, Step{Op: "updchk", ID: cid, Status: g.r.Intn(4), Out: g.r.Intn(3)})
+		case x < 58:
+			h.Steps = append(h.Steps, Step{Op: "timer", ID: cid})
 		case x < 68:
 			h.Steps = append(h.Steps, Step{Op: "syncchanges"})
 		case x < 78:
@@ -1442,8 +1748,8 @@ func (g *gen) malformed(nsteps int) History {
 // ------------------------------------------------------------------ shrinking
 
 // remove steps (and faults) while an oracle failure of the same kind remains
-func shrink(h History, faults []int, kind string) (History, []int, result) {
-	sameFailure := func(r result) bool { return r.has(kind) != nil }
+func shrink(h History, faults []int, key string) (History, []int, result) {
+	sameFailure := func(r result) bool { return r.has(key) != nil }
 	best := run(h, faults)
 	for changed := true; changed; {
 		changed = false
@@ -1521,20 +1827,15 @@ func main() {
 			c.Faults = []int{}
 		}
 		for i, f := range c.Fails {
-			// shrink, and carry the shrunk history (and ITS signature) with the objection; once per
-			// distinct signature (the check reports one replay per signature)
-			k := f.Sig["kind"].(string)
-			kb, _ := json.Marshal(f.Sig)
-			key := string(kb)
-			if k == "panic" {
-				key = fmt.Sprint(k, f.Sig["op"], f.Sig["over_placeholder"])
-			}
+			// shrink, and carry the shrunk history with the objection; a few times per distinct
+			// signature (the check reports one replay per signature)
+			key := sigKey(f.Sig)
 			if shrunkFor[key] >= 2 {
 				continue
 			}
 			shrunkFor[key]++
-			_, fs, rs := shrink(h, faults, k)
-			if sf := rs.has(k); sf != nil {
+			_, fs, rs := shrink(h, faults, key)
+			if sf := rs.has(key); sf != nil {
 				sig := sf.Sig
 				if fs == nil {
 					fs = []int{}
@@ -1542,6 +1843,9 @@ func main() {
 				sig["shrunk"] = map[string]interface{}{"hist": rs.hist, "faults": fs, "oracle": sf.What}
 				c.Fails[i] = Fail{sf.What, sig}
 			}
+		}
+		if len(c.Fails) > 0 {
+			c.ToCoq = true // every run the oracle objects to is also compared with the model
 		}
 		if err := enc.Encode(&c); err != nil {
 			panic(err)
@@ -1616,6 +1920,8 @@ func corner() []History {
 	db := MSvc{Name: 2, Tags: 0, Rest: 0, TaU: [][2]int{{1, 1}}, TaR: [][2]int{}}
 	c1 := MChk{Sid: 1, Status: 1, Out: 0, Rest: 0, Sname: 1, Stags: 1}
 	c2 := MChk{Sid: 1, Status: 3, Out: 1, Rest: 1, Sname: 1, Stags: 1}
+	c1aux := MChk{Sid: 1, Status: 1, Out: 0, Rest: 0, Sname: 1, Stags: 1, Aux: 1}
+	c1out := MChk{Sid: 1, Status: 1, Out: 2, Rest: 0, Sname: 1, Stags: 1}
 	nodeChk := MChk{Sid: 0, Status: 1}
 	c3db := MChk{Sid: 2, Status: 1, Sname: 2, Stags: 0}
 	return []History{
@@ -1645,6 +1951,23 @@ func corner() []History {
 			{Op: "dreg", ID: 1, Svc: &web, Ni: 1},
 			{Op: "uss"},
 			{Op: "addsvc", ID: 1, Svc: &web},
+			{Op: "syncchanges"}, {Op: "syncfull"}}},
+		// a check re-registered with only its Interval/Timeout/Type/ExposedPort changed (IsSame ignores them)
+		{User: 1, WF: true, Steps: []Step{
+			{Op: "addsvc", ID: 1, Svc: &web, Chks: []ChkWithID{{1, c1}}},
+			{Op: "syncfull"},
+			{Op: "addchk", ID: 1, Chk: &c1aux},
+			{Op: "syncchanges"}, {Op: "syncfull"}}},
+		// CheckUpdateInterval > 0: an output-only update is deferred; full syncs in between; then the timer fires
+		{User: 1, WF: true, Defer: true, Steps: []Step{
+			{Op: "addsvc", ID: 1, Svc: &web, Chks: []ChkWithID{{1, c1}}},
+			{Op: "syncfull"},
+			{Op: "updchk", ID: 1, Status: 1, Out: 2},
+			{Op: "syncchanges"}, {Op: "syncfull"},
+			{Op: "addchk", ID: 1, Chk: &c1out},
+			{Op: "syncfull"},
+			{Op: "updchk", ID: 1, Status: 1, Out: 1},
+			{Op: "timer", ID: 1},
 			{Op: "syncchanges"}, {Op: "syncfull"}}},
 		// a removed check that the catalog holds under ANOTHER service, removed together with its
 		// (local) service: the service deregistration prunes the local mark, the catalog keeps the check
